@@ -40,12 +40,16 @@ def run_demo(sid, d):
         rc, out = sh(f"go test {race}-vet=off -count=1 -run '^({tests})$' ./{pkgdir}/")
         os.remove(dst)
         return rc == 0, out[-1500:]
+    if os.path.exists(os.path.join(d, "run_demo.sh")):       # the agent's own runner: run_demo.sh <worktree>, exit 0 = demo passes
+        rc, out = sh(f"sh {os.path.join(d, 'run_demo.sh')} {WT} 2>&1")
+        return rc == 0, out[-1500:]
     if os.path.exists(os.path.join(d, "demo.pangaea")):
         exp = None
         for n in ("expected_output.txt", "expected.txt", "expected_output"):
             if os.path.exists(os.path.join(d, n)):
                 exp = open(os.path.join(d, n)).read()
-        rc, out = sh(f"go run . {os.path.join(d, 'demo.pangaea')} 2>&1")
+        stdin = os.path.join(d, "stdin.txt")       # a demo that reads its standard input ships the text
+        rc, out = sh(f"go run . {os.path.join(d, 'demo.pangaea')} 2>&1" + (f" < {stdin}" if os.path.exists(stdin) else " < /dev/null"))
         if exp is None:
             return rc == 0, out[-1500:]
         return out.strip() == exp.strip(), out[-1500:]
